@@ -97,7 +97,48 @@ NEEDS = {
              'non-collinear vector spins and operations that are not their own inverse (3-, 4-, 6-fold, rotoinversions)'),
     'C20b': ('genpoint: "one atom of that chemistry" shortcut returns the space-group operations unshifted',
              'species with exactly one site per cell that is not at the origin (B2 centre, perovskite B site)'),
-    'C23b': ('', ''),
+    'C23b': ('Crystal.g_pos memoises the unit-cell shift of image atoms in a class-level dict keyed by the operation and atom, not the crystal',
+             'history: two crystals in one process with the same lattice and an equal operation whose image atom falls into a different cell'),
+    'C02b': ('Interstitial.diffusivity builds the symmetrised rate in place with the probability ratio inverted',
+             '>= 2 Wyckoff sets with a vector basis, joined by jumps, with different site probabilities'),
+    'C04b': ('Interstitial.diffusivity: symmetrised rate rebuilt from detailed balance with the ratio inverted (same slip as C02b / C05b, found independently)',
+             'jump between two sites that both carry a vector basis, in different Wyckoff sets with different probabilities'),
+    'C05b': ('Interstitial.diffusivity: symmetrised rates from ratelist with the probability ratio inverted (same slip as C02b, found independently)',
+             'as C02b'),
+    'C06b': ('Lij step 6c: origin-state correction scaled with sqrt(crys.N) (atoms of all species) instead of the number of vacancy sites',
+             'compound (spectator species) whose vacancy sites are polar: origin states and crys.N != N'),
+    'C08b': ('large-omega2 branch: block replaced by (g^-1+w)^-1 - w^-1 instead of -inv(w + w g w) (catastrophic cancellation)',
+             'exchange rate >= 1e11 x bare rate with the large-rate algorithm active'),
+    'C09b': ('Interstitial.siteprob: probabilities laid out with np.repeat in sitelist order',
+             'Wyckoff sets interleaved in the site index (atom order t,o,t,o,t,t) with different energies'),
+    'C10b': ('GFCrystalcalc.__init__ sorts its copy of the site list and builds invmap from it',
+             'user site list whose Wyckoff sets are not in order of first site index, with different energies per set'),
+    'C15b': ('tags2preene VERBOSE report: duplicates collected pairwise against the first tag of the class',
+             'VERBOSE=True and >= 3 member tags of one class in the user dictionary'),
+    'C16b': ('Taylor sumcoeff: empty left operand returns alpha*b instead of beta*b (not in place)',
+             'difference / weighted sum whose left operand has no terms'),
+    'C17b': ('Taylor3D.rotatedirections: range for monomials with three non-zero exponents loses its +1',
+             '3-D expansion of order Lmax with a coefficient on x^2 y z, x y^2 z or x y z^2'),
+    'C19b': ('Crystal.reduce averages matched copies with v - newatom instead of the minimum-image displacement',
+             'non-primitive input with position noise 1e-7 (threshold 1e-6) and an atom on a reduced-cell face'),
+    'C21b': ('jumpnetwork: symmetry-grouped jump list memoised (lru_cache) and pruned in place by the obstruction loop',
+             'history: same crystal object, same (chem, cutoff), a later call with a weaker closestdistance'),
+    'C22b': ('reducekptmesh assumes the first sorted k-point is Gamma',
+             'mesh with an odd division (no Gamma point)'),
+    'C25b': ('VectorStarSet.GFexpansion memoised and never cleared by generate()',
+             'history: GFexpansion(), generate(other star set), GFexpansion() on one object'),
+    'C26b': ('StarSet.jumpnetwork_omega1/2 memoised with Nshells as the only validity key',
+             'history: generate(N, originstates=a), omega networks, generate(N, not a), omega networks'),
+    'C27b': ('Supercell.equivalencemap accepts an operation when defect names match instead of comparing occupations',
+             'two chemistry indices sharing a name (unnamed solutes, isotope tracer)'),
+    'C32b': ('MonteCarloSampler.update: per-site occupancy guards dropped (set.discard / add)',
+             'history with a redundant request: occupy an occupied site or empty an empty one'),
+    'C33b': ('MonteCarloSampler.deltaE_trial fast path for single swaps uses set differences of interaction rows',
+             'supercell in which a cluster wraps onto itself; single occupy + unoccupy move completing such a cluster'),
+    'C35b': ('MonteCarloSampler_jit.start() clears clustercount[:Nenergy] only',
+             'second start() on a compiled sampler with a jump network, then transitions()'),
+    'C36b': ('PairState.__add__: every zero state treated as additive identity before the end-point check',
+             'zero state added to / subtracted from a state with non-matching end points'),
     'C24b': ('StarSet.generate continues from the previous outermost shell and seeds with the old states',
              'history: generate(N, originstates=True) then generate(M > N, originstates=False) on one object'),
     'C28b': ('Supercell.POSCAR omits the count entry of an empty interstitial species',
